@@ -32,6 +32,7 @@ type FuncSpec struct {
 	Pkg      string
 	Name     string
 	Requires []Clause
+	CallsEach string // higher-order clause: slice(args...) — calls every element in order
 	CallPre  map[string][]Clause // extra obligations at the call sites of a callee inside this function
 	Physical []Clause // free preconditions: assumed on both sides (event counters below 2^49, stored objects exist)
 	Ensures  []Clause
@@ -296,6 +297,8 @@ func (fs *FuncSpec) addDirective(word, rest, where string) error {
 			return err
 		}
 		fs.Requires = append(fs.Requires, c)
+	case "callseach":
+		fs.CallsEach = strings.TrimSpace(rest)
 	case "callpre":
 		// callpre <callee short name>: expr
 		i := strings.Index(rest, ": ")
